@@ -122,7 +122,23 @@ def run_exec_case(case, res, sim=None):
     while not ref.done and steps < case["max_steps"]:
         w = ref.m.get(ref.pc, 0)
         at = ref.pc
-        ret = sim.step()
+        # an instruction is an instruction however it is driven: whole steps, the two explicit half cycles, or
+        # single-cycle calls (what the GUI's cycle stepping uses) - chosen per case, mixed for "mixed"
+        drive = case.get("drive", "step")
+        if drive == "mixed":
+            drive = ("step", "halves", "single")[(steps + len(case["text"])) % 3]
+        if drive == "halves":
+            sim.first_cycle_step()
+            sim.second_cycle_step()
+            ret = not sim.is_done()
+            res.count("instructions_driven_by_half_cycles")
+        elif drive == "single":
+            sim.single_step()
+            sim.single_step()
+            ret = not sim.is_done()
+            res.count("instructions_driven_by_half_cycles")
+        else:
+            ret = sim.step()
         ref.step()
         steps += 1
         res.count("steps_compared")
@@ -156,7 +172,7 @@ def gen_prog_case(rng):
     pokes = {str(i): w for i, w in enumerate(words) if i}
     for a in (4095, 4094, L, L + 1):
         pokes[str(a)] = rng.choice([0, 1, 0xFFFF, 0x8000, rng.getrandbits(16), (0 << 12) | rng.randrange(L)])
-    return {"kind": "exec", "text": text, "pokes": pokes, "acc": rng.choice([0, 0, 1, 0xFFFF, 0x8000, rng.getrandbits(16)]), "max_steps": 120, "w0": words[0], "L": L}
+    return {"kind": "exec", "text": text, "pokes": pokes, "acc": rng.choice([0, 0, 1, 0xFFFF, 0x8000, rng.getrandbits(16)]), "max_steps": 120, "w0": words[0], "L": L, "drive": rng.choice(["step", "step", "halves", "single", "mixed"])}
 
 
 def gen_restore_case(rng):
@@ -587,6 +603,90 @@ def run_halves_case(case, res):
         res.nontrivial(h64(case))
 
 
+def run_fault_halves_case(case, res):
+    """a machine with a smaller memory: an operand, store target or branch target beyond it makes an instruction FAIL.
+    Whole steps and half-cycle calls are the same execution there too: after a failing whole step() the state is either
+    the state before the instruction (an all-or-nothing step) or exactly the state the two half-cycle calls leave -
+    never a third one - and up to that point the boundary snapshots agree."""
+    from architecture_simulator.simulation.toy_simulation import ToySimulation
+
+    sims = []
+    for _ in range(2):
+        s_ = ToySimulation(unified_memory_size=case["size"])
+        s_.load_program(case["text"])
+        sims.append(s_)
+    A, B = sims
+    for k in range(case["max_steps"]):
+        if A.is_done() or B.is_done():
+            break
+        try:
+            pre = snapshot(A)
+        except Exception:
+            return
+        ea = eb = None
+        try:
+            A.step()
+        except Exception as e:
+            ea = e
+        try:
+            B.first_cycle_step()
+            B.second_cycle_step()
+        except Exception as e:
+            eb = e
+        try:
+            sa, sb = snapshot(A), snapshot(B)
+        except Exception:
+            res.count("fault_halves_unobservable")
+            return
+        if ea is None and eb is None:
+            res.count("boundary_snapshots_compared")
+            if sa != sb:
+                res.violation("C20", "boundary-mismatch", "memory of %d words, after instruction %d: step() and first/second half differ in %s" % (case["size"], k + 1, [SNAP_NAMES[i] for i in range(len(sa)) if sa[i] != sb[i]]), case)
+                return
+            continue
+        res.count("failing_instructions_compared")
+        if (ea is None) != (eb is None):
+            res.violation("C20", "boundary-mismatch", "memory of %d words, instruction %d: step() %s, the two half-cycle calls %s" % (case["size"], k + 1, "raised %r" % ea if ea else "succeeded", "raised %r" % eb if eb else "succeeded"), case)
+            return
+        if sa != pre and sa != sb:
+            res.violation("C20", "failing-step-third-state", "memory of %d words, instruction %d fails (%s): step() leaves neither the state before the instruction nor the state the half-cycle calls leave; differs from the latter in %s" % (case["size"], k + 1, type(ea).__name__, [SNAP_NAMES[i] for i in range(len(sa)) if sa[i] != sb[i]]), case)
+            return
+        # trying again: the whole-step machine must not execute a half a second time
+        if sa == sb:
+            try:
+                A.step()
+            except Exception:
+                pass
+            try:
+                B.step()
+            except Exception:
+                pass
+            try:
+                sa, sb = snapshot(A), snapshot(B)
+            except Exception:
+                return
+            if sa != sb:
+                res.violation("C20", "failing-step-third-state", "memory of %d words: step() retried after the failure of instruction %d differs between the twins in %s" % (case["size"], k + 1, [SNAP_NAMES[i] for i in range(len(sa)) if sa[i] != sb[i]]), case)
+        return
+
+
+def gen_fault_halves(rng):
+    size = rng.choice([16, 24, 32, 64])
+    n = rng.randint(1, 6)
+    ops = ["LDA", "ADD", "SUB", "OR", "AND", "XOR", "STO", "BRZ", "INC", "DEC", "ZRO", "NOT", "NOP"]
+    lines = []
+    for i in range(n):
+        m = rng.choice(ops)
+        if m in ops[:8]:
+            a = rng.choice([rng.randrange(size), rng.randrange(size), size, size + 1, 4095, rng.randrange(size, 4096)])
+            if m == "BRZ" and rng.random() < 0.5:
+                lines.append("ZRO")
+            lines.append("%s %d" % (m, a))
+        else:
+            lines.append(m)
+    return {"kind": "fault_halves", "size": size, "text": "\n".join(lines[: size - 1]), "max_steps": 20}
+
+
 def gen_calls(rng, n):
     out = []
     due = 1
@@ -619,6 +719,8 @@ def run_case(prop, case, res, sim=None):
         run_asm_case(case, res)
     elif k == "halves":
         run_halves_case(case, res)
+    elif k == "fault_halves":
+        run_fault_halves_case(case, res)
     elif k in ("word", "instr"):
         run_encode(res)
     elif k == "doc":
@@ -736,3 +838,6 @@ def run_shard(spec, res):
             res.evaluations += 1
             if it < 1:
                 res.sample(case, 3)
+            if it % 8 == 0:
+                guarded(run_case, prop, gen_fault_halves(rng), res)
+                res.evaluations += 1
